@@ -952,6 +952,23 @@ func minimiseAndConfirm(c *Check, argv []string, tier string, fd *found) (string
 			return final, true
 		}
 	}
+	if c.NondeterminismIsTheProperty {
+		// The harness is deterministic (selftest), so a violation that does not
+		// reproduce comes from nondeterminism of the code under test (map
+		// iteration, goroutine order) — which is exactly what this property
+		// forbids. Try a few more times for a reproducing replay; report it either way.
+		rf.LogHash = ""
+		b, _ := json.MarshalIndent(rf, "", " ")
+		os.WriteFile(final, b, 0o644)
+		os.Remove(raw)
+		for i := 0; i < 6; i++ {
+			if rcode, _ := run("replay", final); rcode == 1 {
+				return final, true
+			}
+		}
+		fmt.Printf("NOTE property=%s: violation %q was observed at seed %d but replays of its plan diverge differently or not at all: the outcome of the code under test is not a function of the plan\n", c.ID, fd.v.Sig, fd.seed)
+		return final, true
+	}
 	return raw, false
 }
 
